@@ -9,7 +9,6 @@ import (
 	"oss.terrastruct.com/d2/d2target"
 	"oss.terrastruct.com/d2/lib/shape"
 	"verif/h/eng"
-	"verif/h/u"
 )
 
 // A sizing spec is "l=<label kind>;f=<font size|->;s=<plain|bold|italic|bolditalic>;i=<none|in|out>;w=<n|->;h=<n|->#<dsl shape>".
@@ -173,7 +172,7 @@ func c21Oracle(in string) eng.Res {
 	}
 	p := layoutSized(s)
 	if p.err != nil {
-		return eng.Bad("compile-or-layout-error:"+u.StripDigits(p.err.Error()), p.err.Error()+"\n"+p.src)
+		return eng.Bad(errClass(p.err), p.err.Error()+"\n"+p.src)
 	}
 	sh, ok := p.shapes[objName(dsl)]
 	if !ok {
@@ -210,7 +209,7 @@ func c21Oracle(in string) eng.Res {
 			min.w, min.h = 1, 1
 			q := layoutSized(min)
 			if q.err != nil {
-				return eng.Bad("compile-or-layout-error:"+u.StripDigits(q.err.Error()), q.err.Error()+"\n"+q.src)
+				return eng.Bad(errClass(q.err), q.err.Error()+"\n"+q.src)
 			}
 			c := q.shapes[objName(dsl)]
 			if c.Width < sh.LabelWidth || c.Height < sh.LabelHeight {
@@ -260,7 +259,7 @@ func c21Oracle(in string) eng.Res {
 func init() {
 	eng.Register(&eng.Check{
 		ID: "C21", Level: "exploration", HangBound: 120 * time.Second,
-		QuickBudget: 110 * time.Second, ThoroughBudget: 24 * time.Minute,
+		QuickBudget: 118 * time.Second, ThoroughBudget: 24 * time.Minute,
 		Rule: "every attribute combination (label in {1 char, 12 chars, 60 chars, 3 lines, 8 short lines, 9-line block, CJK, emoji (thorough)} x font-size x bold/italic x icon in {none, inside, outside-top-left} x (width,height) in D^2, D per phase) is rendered to a D2 program holding one root-level leaf of each of the 23 leaf shape keywords with those attributes, laid out through d2lib.Compile with dagre; each (combination, shape) pair is one evaluation on the exported shape; non-trivial = both dimensions explicit, or automatic size with an inside label",
 		Assumptions: []string{
 			"leaf shapes at the root of a dagre-laid-out board only (no grid, no sequence diagram, no containers, no near)",
@@ -305,9 +304,13 @@ func init() {
 				return r
 			}
 			if !w.Thorough() {
-				run("labels(7) x font{-,8,40} x {plain,bolditalic} x icons(3) x dims{(-,-),(1,1),(37,200),(200,37),(1000,1000),(37,-),(-,200)}",
-					[]string{"x", "c12", "c60", "lines", "tall", "block", "cjk"}, []string{"-", "8", "40"}, []string{"plain", "bolditalic"}, []string{"none", "in", "out"},
-					[][2]int{{0, 0}, {1, 1}, {37, 200}, {200, 37}, {1000, 1000}, {37, 0}, {0, 200}})
+				ql := []string{"x", "c60", "lines", "tall", "block", "cjk"}
+				qf := []string{"-", "40"}
+				qs := []string{"plain", "bolditalic"}
+				qi := []string{"none", "in", "out"}
+				run("automatic size: labels(6) x font{-,40} x {plain,bolditalic} x icons(3)", ql, qf, qs, qi, [][2]int{{0, 0}})
+				run("explicit size {(1,1),(37,200),(200,37),(1000,1000)}: same attribute grid", ql, qf, qs, qi, [][2]int{{1, 1}, {37, 200}, {200, 37}, {1000, 1000}})
+				run("one-sided size {(37,-),(-,200)}: same attribute grid", ql, qf, qs, qi, [][2]int{{37, 0}, {0, 200}})
 			} else {
 				run("labels(8) x font{-,8,16,32,100} x styles(4) x icons(3) x dims{-,1,5,37,200,1000}^2",
 					sizeLabelOrder, []string{"-", "8", "16", "32", "100"}, []string{"plain", "bold", "italic", "bolditalic"}, []string{"none", "in", "out"},
